@@ -51,6 +51,8 @@ def check_C18(ctx, unit, nbits):
              "amount is dominated by a comparison that bounds the shift amount (or the word offset derived from it)", 2)
     ctx.rule("B3.shift-range", "every shift count in bitset and the PRNGs stays within [0, width) (interval analysis with "
              "branch refinement)", 6)
+    ctx.rule("B8.no-unsigned-wrap", "in operator<<= and operator>>= no unsigned subtraction (word counts, loop bounds, offsets) can "
+             "go below zero for any shift amount the guard lets through (interval analysis + relational loop facts)", 2)
     ctx.rule("R.self-recursion", "no function calls itself on every path", 0)
     ctx.rule("E.bitref", "bit reference: assignment from another reference reads the source bit through operator bool and "
              "writes its own index; operator~ negates the bit value", 2)
@@ -209,6 +211,44 @@ def check_C18(ctx, unit, nbits):
                      ("%d of %d shift-dependent buffer accesses (first: %s) are not dominated by any bound on the shift amount: "
                       "a shift by >= 64*words indexes outside the object" % (len(unguarded), len(acc), canon(unguarded[0])[:60]))
                      if unguarded else "all %d shift-dependent accesses are dominated by a bound on the shift amount" % len(acc), f)
+        # B8: unsigned subtractions in the shift operators must not wrap
+        for f in fns:
+            if f.name not in ("operator<<=", "operator>>="):
+                continue
+            inits = RA.local_inits(f)
+            pid = f.params()[0]["d"]
+            subs = sorted([n for n in f.events() if n.kind == "BinaryOperator" and n.op == "-" and n.get("bits") and not n.get("sgn")],
+                          key=lambda n: n.loc)
+            bad = []
+            for n in subs:
+                env = {"__inits__": {d: i for d, i in inits.items() if not RA._reassigned(f, d) and (i.get("bits") or i.strip().get("bits"))}}
+                keyof = lambda x: (x.strip().d["d"] if x.strip().kind == "DeclRefExpr" and (x.strip().d["d"] == pid or x.strip().d["d"] in env["__inits__"]) else None)
+                rel = None
+                for cond, truth in flow.facts_at(f, n.id):
+                    env = RB.refine_env(env, cond, truth, keyof)
+                    c = cond.strip()
+                    # relational fact a >= b / a > b on exactly the operands of this subtraction
+                    if c.kind == "BinaryOperator" and c.op in (">=", ">", "<", "<=") :
+                        a, b = canon(c.children[0]), canon(c.children[1])
+                        op = c.op if truth else {">=": "<", ">": "<=", "<": ">=", "<=": ">"}[c.op]
+                        l0 = n.children[0].strip()
+                        # (x - y) or ((x - y) - k)
+                        x, y = canon(n.children[0]), canon(n.children[1])
+                        if (a, b) == (x, y) and op in (">=", ">"):
+                            rel = 1 if op == ">" else 0
+                        if l0.kind == "BinaryOperator" and l0.op == "-" and (a, b) == (canon(l0.children[0]), canon(l0.children[1])) and op == ">":
+                            k = n.children[1].strip().cv()
+                            if k is not None and k <= 1:
+                                rel = 0
+                if rel is not None:
+                    continue
+                a = RB.ieval(n.children[0], env, f)
+                b = RB.ieval(n.children[1], env, f)
+                if a.lo < b.hi:
+                    bad.append("%s at %s: left operand ranges over %s, right over %s — the unsigned difference can wrap" % (
+                        canon(n)[:50], n.loc, a, b))
+            ctx.inst("B8.no-unsigned-wrap", "%s%s" % (f.sig, tag), not bad, f.loc,
+                     "; ".join(bad[:2]) if bad else "%d unsigned subtractions, none can go below zero on the guarded range of the shift amount" % len(subs), f)
         # B3 over all bitset members
         for f in fns:
             if any(n.kind in ("BinaryOperator", "CompoundAssignOperator") and n.op in ("<<", ">>", "<<=", ">>=") for n in f.events()):
